@@ -355,6 +355,17 @@ def check_fragment_one_body(idx: Index, rep: Report):
         if len(ctor) != 1:
             raise AnalysisError(f"{meth.ref}: InteractionOperator assembly not found")
         sl = _backward_slice(meth.node, ctor[0].args[1])
+        # a value obtained through a helper method of the class is what that helper returns (two levels)
+        for _level in range(2):
+            extra = []
+            for e in sl:
+                for x in ast.walk(e):
+                    if isinstance(x, ast.Call) and isinstance(x.func, ast.Attribute) and norm(x.func.value) == "self" and x.func.attr in ci.methods and x.func.attr != name:
+                        helper = ci.methods[x.func.attr]
+                        for r in ast.walk(helper.node):
+                            if isinstance(r, ast.Return) and r.value is not None:
+                                extra += _backward_slice(helper.node, r.value)
+            sl = sl + [e for e in extra if e not in sl]
         has = any(isinstance(x, ast.Call) and norm(x.func) == "self.mean_field.get_hcore" for e in sl for x in ast.walk(e))
         n += 1
         rep.decide(has, rule, meth, ctor[0], text=f"{meth.qualname}: one-body coefficients {norm(ctor[0].args[1])} derive from self.mean_field.get_hcore()",
